@@ -63,7 +63,7 @@ func (s *socket) RecvMsg() (*protocol.Message, error) {
 	timeQ := nilQ
 	for {
 		s.Lock()
-		if s.recvExpire > 0 {
+		if timeQ == nil && s.recvExpire > 0 {
 			timeQ = time.After(s.recvExpire)
 		}
 		closeQ := s.closeQ
